@@ -2031,9 +2031,11 @@ insert_list:
         else
             state ++;
         if (state == 0 && cvar.q.th) {
-            if (cvar.q.th && (cvar.q.th->rwlock_mark & WLOCK)) {
-                cvar.notify_one();
-            } else
+            // Wake whoever is at the head *now*, then look at what was woken: a timed
+            // waiter may leave the queue at any moment, so classifying the head first
+            // and waking "it" afterwards can end up waking nobody.
+            auto th = cvar.notify_one();
+            if (th && (th->rwlock_mark & RLOCK))
                 while (cvar.q.th && (cvar.q.th->rwlock_mark & RLOCK)) {
                     cvar.notify_one();
                 }
